@@ -147,17 +147,22 @@ def updateParameters (F : FloatOps) (s : C3D) (newPoints newAnalogs : List Bytes
     updateAnalogParams g s.frames newAnalogs).lift (fun g => { s with groups := g })
   |>.bind fun s1 => updateHeader F s1
 
+/-- the parameter tree after `c3d::parameter(groupName, p)` stored a typed, named parameter:
+    find-or-create the group (appended at the end), then replace-or-append inside it -/
+def insertParam (gs : List Group) (groupName : Bytes) (p : Param) : Res (List Group) :=
+  let gs1 : List Group := match groupIdx gs groupName with
+    | .ok _ => gs
+    | _ => gs ++ [{ name := groupName }]
+  (groupIdx gs1 groupName).bind fun gi =>
+  (atIdx gs1 gi).bind fun g =>
+  (g.addParam p).bind fun g' => .ok (gs1.set gi g')
+
 /-- `c3d::parameter(groupName, p)` (ezc3d.cpp:263-284) -/
 def C3D.parameter (F : FloatOps) (s : C3D) (groupName : Bytes) (p : Param) : Outcome C3D :=
   if p.name = [] then .throw .invalid_argument s else
   if p.type = .none then .throw .runtime_error s else
-  let gs1 : List Group := match groupIdx s.groups groupName with
-    | .ok _ => s.groups
-    | _ => s.groups ++ [{ name := groupName }]
-  (groupIdx gs1 groupName).andThen s fun gi =>
-  (atIdx gs1 gi).andThen s fun g =>
-  (g.addParam p).andThen { s with groups := gs1 } fun g' =>
-  updateHeader F { s with groups := gs1.set gi g' }
+  (insertParam s.groups groupName p).andThen s fun gs' =>
+  updateHeader F { s with groups := gs' }
 
 /-- `c3d::lockGroup` / `unlockGroup` -/
 def C3D.setGroupLock (s : C3D) (groupName : Bytes) (v : Bool) : Outcome C3D :=
